@@ -142,14 +142,19 @@ def generateEntropy (rand : Bytes) (bitSize : Int) : Outcome (Bytes × Bytes) :=
   if invalidEntropySize bitSize then .err else
   Parser.readN (bitSize / 8).toNat rand
 
-/-- bip39.go:62-75; `nWords * 32 / 3` in Go's `int` (64-bit, wrapping, truncated division) -/
-def generateMnemonic (wl : List Bytes) (csByte : Bytes → UInt8) (rand : Bytes) (nWords : Int) :
+/-- bip39.go:64-74: `GenerateEntropy(rand, bitSize)` then `EncodeToWords(entropy)` -/
+def generateFrom (wl : List Bytes) (csByte : Bytes → UInt8) (rand : Bytes) (bitSize : Int) :
     Outcome (List Bytes) :=
-  let bitSize := Int.tdiv (BtcVerif.Gen.wrapS 18446744073709551616 (nWords * 32)) 3
   match generateEntropy rand bitSize with
   | .ok (entropy, _) => encode wl csByte entropy
   | .err => .err
   | .panic => .panic
+
+/-- bip39.go:62-75; `bitSize := nWords * 32 / 3` in Go's `int` (64-bit, wrapping multiplication,
+    truncated division) -/
+def generateMnemonic (wl : List Bytes) (csByte : Bytes → UInt8) (rand : Bytes) (nWords : Int) :
+    Outcome (List Bytes) :=
+  generateFrom wl csByte rand (Int.tdiv (BtcVerif.Gen.wrapS 18446744073709551616 (nWords * 32)) 3)
 
 /-! ### the instances the oracle runs -/
 
